@@ -2,6 +2,7 @@ package ipc
 
 import (
 	"fmt"
+	"go/token"
 	"strings"
 
 	"golang.org/x/tools/go/ssa"
@@ -24,7 +25,7 @@ func runC13(c *Ctx) {
 	p := c.Progs["mod"]
 	c.Rule("C13.U", "definite overwrite of every authority-bearing URL field before the dial", 8)
 	c.Rule("C13.D", "who-may-dial in the shim package", 6)
-	c.Rule("C13.M", "mounting of the shim endpoints and pass-through identity", 8)
+	c.Rule("C13.M", "mounting of the shim endpoints and pass-through identity", 9)
 
 	se := resolveShimEndpoints(c, p, "C13.U")
 	if se == nil || se.Inner == nil {
@@ -255,6 +256,42 @@ func runC13(c *Ctx) {
 							guard = true
 						}
 					}
+				}
+				// the compared prefix ends in "/" (so "/shim-static/x" is not under "/shim")
+				if hpc := Calls(disp, "strings.HasPrefix"); len(hpc) == 1 {
+					slash, other := 0, ""
+					for _, r := range Roots(Args(CallOf(hpc[0]))[1]) {
+						if _, isP := r.(*ssa.Parameter); isP {
+							// the initial value of the reassigned parameter; must be overwritten before the closure is made
+							continue
+						}
+						bo, isB := r.(*ssa.BinOp)
+						sfx, isC := "", false
+						if isB && bo.Op == token.ADD {
+							sfx, isC = ConstString(bo.Y)
+						}
+						if isC && strings.HasSuffix(sfx, "/") {
+							// its store must dominate the creation of the dispatcher
+							dom := false
+							for _, u := range Refs(bo) {
+								if st, isSt := u.(*ssa.Store); isSt {
+									EachInstr(pr, func(i ssa.Instruction) {
+										if mc, isM := i.(*ssa.MakeClosure); isM && mc.Fn == ssa.Value(disp) && Dominates(st, i) {
+											dom = true
+										}
+									})
+								}
+							}
+							if dom {
+								slash++
+							} else {
+								other = "the slash-terminated prefix is not assigned on every path before the dispatcher is created"
+							}
+						} else {
+							other = "the prefix may be " + PathOf(r)
+						}
+					}
+					c.Check("C13.M", "dispatch:prefix-ends-with-slash", p, hpc[0].Pos(), slash == 1 && other == "", "the compared prefix is <cleaned shim path> + \"/\": only paths inside the shim directory match", "the prefix compared with r.URL.Path does not provably end in \"/\" ("+other+"): a backend path that merely starts with the same characters (shim path \"ws-shim\", request \"/ws-shim-static/site.css\") is routed to the shim's mux and answered 404/301 instead of reaching the backend")
 				}
 				c.Check("C13.M", "dispatch:shim-only-under-prefix", p, toShim.Pos(), guard, "the shim server is entered only when r.URL.Path has the cleaned shim prefix", "the shim server is entered without strings.HasPrefix(r.URL.Path, path.Clean(\"/\"+shimPath)+\"/\")")
 				// and every path that does not take the shim branch calls wrapped
